@@ -48,6 +48,15 @@ THEOREMS = [
     "Lena.C14.mkCompose_rejects",
     "Lena.C14.mkCombine_rejects",
     "Lena.C14.compose_name_keyword_ignored",
+    "Lena.C14.compose_name_keyword",
+    "Lena.C14.mkComposeN_no_name",
+    "Lena.C14.getAttr_setAttr",
+    "Lena.C14.getAttr_setAttr_ne",
+    "Lena.C14.getAttr_private",
+    "Lena.C14.getAttr_missing",
+    "Lena.C14.getAttr_mkVariable",
+    "Lena.C14.setAttr_reaches_context",
+    "Lena.C14.combine_getitem",
 ]
 TRUSTED = [
     "Lean 4.33.0 kernel; axioms limited to propext, Classical.choice, Quot.sound (audited by #print axioms on every run)",
@@ -157,6 +166,17 @@ def _expr_strings(e, acc):
 
 def alphabet(case):
     acc = set(RESERVED)
+    if case.get("kind") == "attr":
+        _expr_strings(case["expr"], acc)
+        for o in case["ops"]:
+            for k in ("get", "set"):
+                if k in o:
+                    acc.add(o[k])
+            if "v" in o:
+                _strings(o["v"], acc)
+            if "call" in o and o["call"].get("c") is not None:
+                _strings(o["call"]["c"], acc)
+        return sorted(acc)
     for e in case["chain"]:
         _expr_strings(e, acc)
     for v in case["vals"]:
@@ -270,8 +290,8 @@ def _seq_fn(vars_):
     return fn
 
 
-def run_impl(case):
-    res = {"fx": detect_fx()}
+def _chain_run_impl(case):
+    res = {"fx": detect_fx(), "nk": detect_nk()}
     # the variables in a Sequence
     try:
         vars_ = [build(e) for e in case["chain"]]
@@ -325,18 +345,33 @@ def detect_fx():
     return _FX
 
 
+_NK = None
+
+
+def detect_nk():
+    """Does `Compose` of the tree under test honour its documented keyword `name` (notes/C14_defect_2.patch)?"""
+    global _NK
+    if _NK is None:
+        try:
+            from lena.variables import Variable, Compose
+            _NK = Compose(Variable("a", lambda x: x), name="zz").var_context.get("name") == "zz"
+        except Exception:
+            _NK = False
+    return _NK
+
+
 # ---------------------------------------------------------------------------------------------
 # model side
 
 
-def model_requests(case):
+def _chain_model_requests(case):
     names = alphabet(case)
     vals = [{"d": v["d"], "c": None if v.get("c") is None else to_model(v["c"], names)} for v in case["vals"]]
     chain = [expr_to_model(e, names) for e in case["chain"]]
     fx = detect_fx()
     return [
-        {"op": "run", "names": names, "fx": fx, "exprs": chain, "vals": vals},
-        {"op": "run", "names": names, "fx": fx, "vals": vals,
+        {"op": "run", "names": names, "fx": fx, "nk": detect_nk(), "exprs": chain, "vals": vals},
+        {"op": "run", "names": names, "fx": fx, "nk": detect_nk(), "vals": vals,
          "exprs": [{"k": "compose", "args": chain, "kw": [None] * len(names)}]},
     ]
 
@@ -351,7 +386,7 @@ def _strip(o):
     return {k: v for k, v in o.items() if k != "in_after"}
 
 
-def compare(case, res, replies):
+def _chain_compare(case, res, replies):
     names = alphabet(case)
     for which, m in zip(("S", "C"), replies):
         r = res[which]
@@ -446,9 +481,9 @@ def spec_wf(case):
             else:
                 if not e["args"]:
                     return False
+                if "name" in kw and not isinstance(kw.pop("name"), str):
+                    return False
                 if e["k"] == "combine":
-                    if "name" in kw and not isinstance(kw.pop("name"), str):
-                        return False
                     if "type" in kw:
                         t = kw.pop("type")
                         if not _is_type(t):
@@ -506,7 +541,7 @@ def _flat_leaf_chain(chain):
     return out
 
 
-def oracle(case, res):
+def _chain_oracle(case, res):
     wf = spec_wf(case)
     S, C = res["S"], res["C"]
     chain, vals = case["chain"], case["vals"]
@@ -565,6 +600,12 @@ def oracle(case, res):
                                 f"context.variable has {var.get(k)}")
     if "e" in S or "e" in C:
         return None
+    # ---- a Compose / Combine constructed with the keyword `name` has that name -----------------------------------
+    for e, nm in zip(chain, S["names"]):
+        if (e["k"] in ("compose", "combine") and isinstance(e["kw"].get("name"), str) and nm != e["kw"]["name"]
+                and not (e["k"] == "combine" and e["kw"].get("type") == "name")):
+            return (f"{e['k'].capitalize()}(..., name={e['kw']['name']!r}) has the name {nm!r}: the keyword that "
+                    f"'can set the name of the composed variable' was ignored")
     # ---- leaf variables carry the name and attributes they were given ----------------------------------------
     if wf:
         for e, vc in zip(chain, S["vcs"]):
@@ -806,26 +847,37 @@ def _exhaustive_cases(maxlen):
 
 
 def gen_cases(ctx):
+    """a generator (the thorough scope is enumerated lazily)"""
     rng = ctx.rng
     quick = ctx.tier == "quick"
-    cases = _exhaustive_cases(3)
-    g = _Gen(rng)
-    for _ in range(1200 if quick else 40000):
-        n = rng.randint(1, 5)
-        types = TYPES if rng.random() < 0.7 else TYPES[:2]
-        chain = [g.expr(types) for _ in range(n)]
-        g.n = 0
-        cases.append({"chain": chain, "vals": [g.pre_value() for _ in range(2)]})
-    for _ in range(800 if quick else 30000):
-        cases.append(_wild_case(rng))
     ctx.exhaustive = False
-    return cases
+    yield from _exhaustive_cases(3)
+    yield from _attr_exhaustive()
+    g = _Gen(rng)
+    n_chain, n_wild, n_attr = (1200, 800, 300) if quick else (40000, 30000, 8000)
+    # interleaved, so that a prefix of the thorough stream is a sample of all parts
+    total = n_chain + n_wild + n_attr
+    attr = _attr_cases(rng, n_attr)
+    for i in range(total):
+        r = rng.random() * total
+        if r < n_chain:
+            n = rng.randint(1, 5)
+            types = TYPES if rng.random() < 0.7 else TYPES[:2]
+            g.n = 0
+            chain = [g.expr(types) for _ in range(n)]
+            yield {"chain": chain, "vals": [g.pre_value() for _ in range(2)]}
+        elif r < n_chain + n_wild:
+            yield _wild_case(rng)
+        else:
+            c = next(attr, None)
+            if c is not None:
+                yield c
 
 
 # ---------------------------------------------------------------------------------------------
 
 
-def nontrivial(case, res):
+def _chain_nontrivial(case, res):
     S = res["S"]
     if "e" in S or "e" in res["C"]:
         return True
@@ -840,7 +892,7 @@ def nontrivial(case, res):
     return False
 
 
-def classify(case, res):
+def _chain_classify(case, res):
     labels = ["wild" if case.get("wild") else ("wf" if spec_wf(case) else "not-wf"), "len=%d" % len(case["chain"])]
     kinds = set(e["k"] for e0 in case["chain"] for e in _all_exprs(e0))
     labels += ["has:" + k for k in sorted(kinds)]
@@ -870,6 +922,12 @@ def classify(case, res):
 
 def signature(case, failure):
     """one report per kind of failure (the text before the first colon, without the variant's name)"""
+    if "keyword that 'can set the name" in (failure or ""):
+        return "name keyword ignored"
+    if _kind(case) == "attr":
+        return "attr|" + (failure or "").split(":", 1)[-1].strip()[:50]
+    if "keyword that 'can set the name" in (failure or ""):
+        return "name keyword ignored"
     head = (failure or "").split(":")[0]
     for w in ("Sequence ", "Compose "):
         if head.startswith(w):
@@ -877,7 +935,7 @@ def signature(case, failure):
     return head.split(" on {")[0][:80]
 
 
-def shrink(case):
+def _chain_shrink(case):
     chain, vals = case["chain"], case["vals"]
     if len(vals) > 1:
         for i in range(len(vals)):
@@ -912,6 +970,243 @@ def shrink(case):
                         d = dict(var["d"])
                         del d[k]
                         yield dict(case, vals=vals[:i] + [dict(v, c={"d": dict(c["d"], variable={"d": d})})] + vals[i + 1:])
+
+
+# ---------------------------------------------------------------------------------------------
+# kind "attr": attribute access (__getattr__, __setattr__, Combine.__getitem__) on one variable
+#   {"kind":"attr","expr":E,"ops":[{"get":s} | {"set":s,"v":P} | {"item":i} | {"call":value} | {"vc":true} ..]}
+
+_REAL_ATTRS = ("getter", "var_context")      # found by normal lookup, never reach __getattr__
+
+
+def _attr_run_impl(case):
+    try:
+        v = build(case["expr"])
+    except Exception as e:
+        return {"e": exc_name(e), "phase": "init"}
+    out = []
+    for o in case["ops"]:
+        try:
+            if "get" in o:
+                out.append({"r": enc(getattr(v, o["get"]))})
+            elif "set" in o:
+                setattr(v, o["set"], dec(o["v"]))
+                out.append({"r": None})
+            elif "item" in o:
+                w = v[o["item"]]
+                ks = [k for k, u in enumerate(v._vars) if u is w]
+                out.append({"r": ks[0] if ks else -1, "vc": enc(w.var_context)})
+            elif "call" in o:
+                r = v(_mkval(o["call"]))
+                out.append({"d": enc_data(r[0]), "c": enc(r[1])})
+            else:
+                out.append({"vc": enc(v.var_context)})
+        except Exception as e:
+            out.append({"e": exc_name(e)})
+    return {"r": out}
+
+
+def _attr_model_requests(case):
+    names = alphabet(case)
+    ops = []
+    for o in case["ops"]:
+        if "set" in o:
+            ops.append({"set": o["set"], "v": to_model(o["v"], names)})
+        elif "call" in o:
+            c = o["call"]
+            ops.append({"call": {"d": c["d"], "c": None if c.get("c") is None else to_model(c["c"], names)}})
+        else:
+            ops.append(o)
+    return [{"op": "attr", "names": names, "fx": detect_fx(), "nk": detect_nk(), "expr": expr_to_model(case["expr"], names),
+             "ops": ops}]
+
+
+def _attr_compare(case, res, replies):
+    names = alphabet(case)
+    m = replies[0]
+    if "err" in m:
+        return f"model driver error: {m['err']}"
+    if "e" in m or "e" in res:
+        if m.get("e") != res.get("e") or m.get("phase") != res.get("phase"):
+            return f"construction: impl {res if 'e' in res else 'ok'} vs model {m if 'e' in m else 'ok'}"
+        return None
+    for i, (a, b) in enumerate(zip(res["r"], m["r"])):
+        if "err" in b:
+            return f"model driver error at op {i}: {b['err']}"
+        b = dict(b)
+        for k in ("vc", "c"):
+            if k in b:
+                b[k] = from_model(b[k], names)
+        if "r" in b and not ("item" in case["ops"][i]) and b["r"] is not None:
+            b["r"] = from_model(b["r"], names)
+        if a != b:
+            return f"op {i} {case['ops'][i]}: impl {a} vs model {b}"
+    return None
+
+
+def _attr_oracle(case, res):
+    """__getattr__/__setattr__/__getitem__ against their documentation, from the specification alone."""
+    if "e" in res:
+        return None
+    e = case["expr"]
+    latest = {}
+    for i, (o, r) in enumerate(zip(case["ops"], res["r"])):
+        if "set" in o:
+            if "e" in r:
+                return f"op {i}: setting the attribute {o['set']!r} raised {r['e']}"
+            latest[o["set"]] = o["v"]
+        elif "get" in o:
+            a = o["get"]
+            if a.startswith("_"):
+                if r.get("e") != "Other:AttributeError":
+                    return f"op {i}: var.{a} gives {r}, private names must raise AttributeError"
+            elif a in latest:
+                if r.get("r") != latest[a]:
+                    return f"op {i}: var.{a} is {r} after var.{a} = {latest[a]}"
+            elif a == "zz":
+                if r.get("e") != "LenaAttributeError":
+                    return f"op {i}: missing attribute var.zz gives {r}, documented: LenaAttributeError"
+            elif (e["k"] in ("compose", "combine") and a == "name" and isinstance(e["kw"].get("name"), str)
+                  and e["kw"].get("type") != "name"):
+                if r.get("r") != e["kw"]["name"]:
+                    return (f"op {i}: {e['k'].capitalize()}(..., name={e['kw']['name']!r}).name is {r}: the keyword that "
+                            f"'can set the name of the composed variable' was ignored")
+            elif e["k"] == "var" and a == "name" and e["type"] != "name":
+                if r.get("r") != e["name"]:
+                    return f"op {i}: var.name is {r}, the variable was constructed with name {e['name']!r}"
+            elif e["k"] == "var" and a in e["kw"] and a != e["type"]:
+                if r.get("r") != e["kw"][a]:
+                    return f"op {i}: var.{a} is {r}, the variable was constructed with {a}={e['kw'][a]}"
+        elif "item" in o:
+            if e["k"] == "combine":
+                n = len(e["args"])
+                try:
+                    want = list(range(n))[o["item"]]
+                except IndexError:
+                    want = None
+                if want is None:
+                    if r.get("e") != "Other:IndexError":
+                        return f"op {i}: Combine of {n} variables [{o['item']}] gives {r}, expected IndexError"
+                elif r.get("r") != want:
+                    return f"op {i}: Combine of {n} variables [{o['item']}] is variable number {r.get('r')}, expected {want}"
+        elif "call" in o:
+            if "e" in r:
+                continue
+            var = _var_of(r)
+            if var is None:
+                return f"op {i}: no dictionary context.variable in {r}"
+            for a, x in latest.items():
+                if a != "compose" and var.get(a) != x:
+                    return (f"op {i}: after var.{a} = {x} the attribute must reach the context, "
+                            f"context.variable[{a!r}] is {var.get(a)}")
+    return None
+
+
+def _attr_cases(rng, n):
+    g = _Gen(rng)
+    pool_get = ["name", "type", "dim", "combine", "compose", "a", "b", "u", "zz", "_priv", "_vars_", "ta", "tb"]
+    for _ in range(n):
+        g.n = 0
+        r = rng.random()
+        if r < 0.45:
+            e = g.leaf(TYPES)
+        elif r < 0.8:
+            args = [g.leaf(TYPES) for _ in range(rng.randint(1, 4))]
+            kw = _rand_kw(rng, pmax=1)
+            if rng.random() < 0.3:
+                kw["name"] = "xy"
+            e = {"k": "combine", "args": args, "kw": kw}
+        else:
+            e = {"k": "compose", "args": [g.leaf(TYPES) for _ in range(rng.randint(1, 3))],
+                 "kw": ({"name": "foo"} if rng.random() < 0.4 else {})}
+        ops = []
+        for _ in range(rng.randint(2, 7)):
+            q = rng.random()
+            if q < 0.4:
+                ops.append({"get": rng.choice(pool_get + list(e["kw"]))})
+            elif q < 0.6:
+                ops.append({"set": rng.choice(["a", "b", "u", "name", "unit", "dim", "ta"]), "v": _rand_value(rng)})
+            elif q < 0.75:
+                ops.append({"item": rng.randint(-6, 5)})
+            elif q < 0.9:
+                ops.append({"call": g.pre_value()})
+            else:
+                ops.append({"vc": True})
+        yield {"kind": "attr", "expr": e, "ops": ops}
+
+
+def _attr_exhaustive():
+    """every index of Combine of 1..4 variables; every kind of attribute name on a leaf, a Combine and a Compose"""
+    cases = []
+    for n in range(1, 5):
+        args = [_leaf(i, TYPES[i] if i % 2 else "", {"u": i}) for i in range(n)]
+        cases.append({"kind": "attr", "expr": {"k": "combine", "args": args, "kw": {}},
+                      "ops": [{"item": i} for i in range(-n - 2, n + 2)] + [{"get": "dim"}, {"get": "name"}]})
+    exprs = [_leaf(1, "ta", {"a": 1, "u": "mm"}), _leaf(1, "", {"a": {"l": [0, 1]}}),
+             {"k": "combine", "args": [_leaf(1, "ta"), _leaf(2, "")], "kw": {"name": "xy", "b": 2}},
+             {"k": "compose", "args": [_leaf(1, "ta"), _leaf(2, "tb", {"u": "cm"})], "kw": {"name": "foo", "b": 2}}]
+    val = {"d": 5, "c": {"d": {"x": 1, "variable": {"d": {"name": "z", "type": "p0", "p0": _sub("z")}}}}}
+    for e in exprs:
+        cases.append({"kind": "attr", "expr": e,
+                      "ops": [{"get": a} for a in ("name", "type", "a", "b", "u", "ta", "compose", "dim", "zz", "_x", "__len__")]
+                      + [{"item": 0}, {"set": "a", "v": 7}, {"get": "a"}, {"set": "unit", "v": "cm"}, {"get": "unit"},
+                         {"call": val}, {"set": "name", "v": "renamed"}, {"get": "name"}, {"call": {"d": 1, "c": None}}, {"vc": True}]})
+    return cases
+
+
+# ---------------------------------------------------------------------------------------------
+# dispatch on the kind of a case
+
+def _kind(case):
+    return case.get("kind", "chain")
+
+
+def run_impl(case):
+    return {"attr": _attr_run_impl}.get(_kind(case), _chain_run_impl)(case)
+
+
+def model_requests(case):
+    return {"attr": _attr_model_requests}.get(_kind(case), _chain_model_requests)(case)
+
+
+def compare(case, res, replies):
+    return {"attr": _attr_compare}.get(_kind(case), _chain_compare)(case, res, replies)
+
+
+def oracle(case, res):
+    return {"attr": _attr_oracle}.get(_kind(case), _chain_oracle)(case, res)
+
+
+def nontrivial(case, res):
+    if _kind(case) == "attr":
+        return "e" in res or any("e" in r or r.get("r") is not None for r in res["r"])
+    return _chain_nontrivial(case, res)
+
+
+def classify(case, res):
+    if _kind(case) == "attr":
+        if "e" in res:
+            return ["attr", "attr:init:" + res["e"]]
+        labels = ["attr", "attr:" + case["expr"]["k"]]
+        for o, r in zip(case["ops"], res["r"]):
+            op = next(k for k in ("get", "set", "item", "call", "vc") if k in o)
+            labels.append(f"attr:{op}:" + (r["e"] if "e" in r else "ok"))
+        return labels
+    return _chain_classify(case, res)
+
+
+def shrink(case):
+    if _kind(case) == "attr":
+        ops = case["ops"]
+        for i in range(len(ops)):
+            yield dict(case, ops=ops[:i] + ops[i + 1:])
+        e = case["expr"]
+        for k in list(e.get("kw", {})):
+            kw = dict(e["kw"])
+            del kw[k]
+            yield dict(case, expr=dict(e, kw=kw))
+        return
+    yield from _chain_shrink(case)
 
 
 # ---- MANIFEST texts ------------------------------------------------------------------------
